@@ -125,7 +125,13 @@ def spaces_of(spec):
     obs = sp.obs_space(spec.get("obs", "vector"), spec.get("obsv", 0))
     if algo in MULTI_ALGOS:
         n = spec.get("n_agents", 3)
-        return [obs for _ in range(n)], [act for _ in range(n)]
+        acts = [act for _ in range(n)]
+        if spec.get("other_bounds") and isinstance(act, spaces.Box):
+            # the agent that is not homogeneous with the first ones (id prefix b) acts in a Box of the same dimension but other bounds
+            w = act.high - act.low
+            other = spaces.Box((act.low + 0.3 * w).astype(np.float32), (act.high - 0.1 * w).astype(np.float32), dtype=np.float32)
+            acts = [other if ag.AGENT_IDS[i].startswith("b") else act for i in range(n)]
+        return [obs for _ in range(n)], acts
     return obs, act
 
 
@@ -600,11 +606,13 @@ def one_multi_call(ctx, agent, spec, obs_l, act_l, ids, call, details):
                              row=r, **da)
                     break
                 continue
-            if promised_bounds and not row_member(space, a2[r]):
-                sig = (f"C14/bounds/{algo}/{branch}/{bounds_class(space)}" if is_box else f"C14/member/{algo}/{kind}/{branch}")
-                ctx.fail(sig, f"agent {a} row {r} = {np.asarray(a2[r]).tolist()} is not an element of {space}", row=r,
-                         action=np.asarray(a2[r]).tolist(), low=getattr(space, "low", np.zeros(0)).tolist(),
-                         high=getattr(space, "high", np.zeros(0)).tolist(), **da)
+            own = act_l[ids.index(a)]  # the acting agent's OWN space (agents of different groups may have different bounds)
+            if promised_bounds and not row_member(own, a2[r]):
+                sig = (f"C14/bounds/{algo}/{branch}/{bounds_class(own)}" + ("/agents_with_different_bounds" if own is not space else "")
+                       if is_box else f"C14/member/{algo}/{kind}/{branch}")
+                ctx.fail(sig, f"agent {a} row {r} = {np.asarray(a2[r]).tolist()} is not an element of {own}", row=r,
+                         action=np.asarray(a2[r]).tolist(), low=getattr(own, "low", np.zeros(0)).tolist(),
+                         high=getattr(own, "high", np.zeros(0)).tolist(), **da)
                 break
             if not promised_bounds and not np.all(np.isfinite(a2[r])):
                 ctx.fail(f"C14/member/{algo}/{kind}/{branch}/not_finite", "action is not finite", **da)
@@ -823,7 +831,8 @@ def single_strategy(draw, tier):
 def multi_strategy(draw, tier):
     algo = draw(st.sampled_from(engine.stratum(MULTI_ALGOS)))
     n_agents = draw(st.sampled_from([2, 3, 3]))
-    spec = {"algo": algo, "obsv": draw(st.integers(0, 2)), "seed": draw(st.integers(0, 999)), "n_agents": n_agents}
+    spec = {"algo": algo, "obsv": draw(st.integers(0, 2)), "seed": draw(st.integers(0, 999)), "n_agents": n_agents,
+            "other_bounds": draw(st.booleans())}
     if algo == "IPPO":
         spec["obs"] = draw(st.sampled_from(IPPO_FAMS))
         spec["act"] = draw(act_strategy(["discrete", "discrete", "multidiscrete", "multibinary"] + BOX_KINDS))
@@ -923,7 +932,7 @@ def multi_grid(tier):
             rng = np.random.default_rng([_env_seed(), 15, rep, i])
             n_agents = int(rng.integers(2, 4))
             spec = {"algo": algo, "obsv": int(rng.integers(0, 3)), "seed": int(rng.integers(0, 1000)), "n_agents": n_agents,
-                    "act": _np_act(kind, rng)}
+                    "act": _np_act(kind, rng), "other_bounds": n_agents == 3 and kind in BOX_KINDS}
             fams = IPPO_FAMS if algo == "IPPO" else MA_OFF_FAMS
             spec["obs"] = fams[int(rng.integers(0, len(fams)))]
             if algo in MA_OFF:
